@@ -54,7 +54,7 @@ def strip_comments(src):
             j = i + 1
             while j < n and src[j] != '"':
                 j += 2 if src[j] == "\\" else 1
-            out.append('""')
+            out.append(src[i:j + 1])
             i = j + 1
         else:
             out.append(c); i += 1
@@ -68,7 +68,7 @@ TOKEN_RE = re.compile(r"""
   | (?P<id>[A-Za-z_][A-Za-z_0-9]*)
   | (?P<num>\d[\d_]*(?:usize|u32|u64|i32)?)
   | (?P<op>\.\.=|\.\.\.|<<=|>>=|::|->|=>|==|!=|<=|>=|&&|\|\||\+=|-=|\*=|/=|\.\.|[-+*/%<>=!&|.,;:(){}\[\]#?@^~$])
-  | (?P<str>"")
+  | (?P<str>"(?:\\.|[^"\\])*")
 """, re.X)
 
 
@@ -125,7 +125,7 @@ def find_fns(toks, name):
                 elif toks[k][1] == "}": d -= 1
                 k += 1
                 if d == 0: break
-            res.append((split_params(ptoks), rtoks, toks[j:k]))
+            res.append((split_params(ptoks), rtoks, toks[j:k], i))
             i = k
         else:
             i += 1
@@ -158,6 +158,244 @@ def split_params(ptoks):
 
 
 # ----------------------------------------------------------------------------------------------------
+# integrity of what the translator takes for granted
+# ----------------------------------------------------------------------------------------------------
+# Everything the lowering reads as a primitive or resolves by name is checked here against the source text; a failed
+# check makes the functions that rely on it (mostly: all of them) "unparsed".
+
+# every definition of these function names anywhere under src/ (file -> count): a new one (a decoy under a dead `cfg`, a
+# replacement in another module) makes the tie stale until this table is reviewed
+EXPECTED_DEFS = {
+    "append": {"src/double_priority_queue/mod.rs": 1, "src/priority_queue/mod.rs": 1, "src/store.rs": 1},
+    "better_to_rebuild": {"src/double_priority_queue/mod.rs": 1, "src/priority_queue/mod.rs": 1},
+    "bubble_up": {"src/double_priority_queue/mod.rs": 1, "src/priority_queue/mod.rs": 1},
+    "bubble_up_max": {"src/double_priority_queue/mod.rs": 1},
+    "bubble_up_min": {"src/double_priority_queue/mod.rs": 1},
+    "change_priority": {"src/double_priority_queue/mod.rs": 1, "src/priority_queue/mod.rs": 1, "src/store.rs": 1},
+    "change_priority_by": {"src/double_priority_queue/mod.rs": 1, "src/priority_queue/mod.rs": 1, "src/store.rs": 1},
+    "clear": {"src/double_priority_queue/mod.rs": 1, "src/priority_queue/mod.rs": 1, "src/store.rs": 1},
+    "deserialize": {"src/double_priority_queue/mod.rs": 1, "src/priority_queue/mod.rs": 1, "src/store.rs": 1},
+    "drain": {"src/double_priority_queue/mod.rs": 1, "src/priority_queue/mod.rs": 1, "src/store.rs": 1},
+    "drop": {"src/double_priority_queue/iterators.rs": 1, "src/priority_queue/iterators.rs": 1, "src/store.rs": 1},
+    "extend": {"src/double_priority_queue/mod.rs": 1, "src/priority_queue/mod.rs": 1, "src/store.rs": 1},
+    "find_max": {"src/double_priority_queue/mod.rs": 1},
+    "find_min": {"src/double_priority_queue/mod.rs": 1},
+    "from": {"src/double_priority_queue/mod.rs": 2, "src/lib.rs": 2, "src/priority_queue/mod.rs": 2, "src/store.rs": 1},
+    "from_iter": {"src/double_priority_queue/mod.rs": 1, "src/priority_queue/mod.rs": 1, "src/store.rs": 1},
+    "get_priority_from_position": {"src/store.rs": 1},
+    "heap_build": {"src/double_priority_queue/mod.rs": 1, "src/priority_queue/mod.rs": 1},
+    "heapify": {"src/double_priority_queue/mod.rs": 1, "src/priority_queue/mod.rs": 1},
+    "heapify_max": {"src/double_priority_queue/mod.rs": 1},
+    "heapify_min": {"src/double_priority_queue/mod.rs": 1},
+    "index_at": {"src/store.rs": 1},
+    "is_empty": {"src/double_priority_queue/mod.rs": 1, "src/priority_queue/mod.rs": 1, "src/store.rs": 1},
+    "left": {"src/double_priority_queue/mod.rs": 1, "src/priority_queue/mod.rs": 1},
+    "len": {"src/core_iterators.rs": 3, "src/double_priority_queue/iterators.rs": 2, "src/double_priority_queue/mod.rs": 1, "src/priority_queue/mod.rs": 1, "src/store.rs": 1},
+    "level": {"src/double_priority_queue/mod.rs": 1},
+    "log2_fast": {"src/double_priority_queue/mod.rs": 1, "src/priority_queue/mod.rs": 1},
+    "move_from": {"src/store.rs": 1},
+    "new": {"src/double_priority_queue/iterators.rs": 1, "src/double_priority_queue/mod.rs": 1, "src/priority_queue/iterators.rs": 1, "src/priority_queue/mod.rs": 1, "src/store.rs": 1},
+    "parent": {"src/double_priority_queue/mod.rs": 1, "src/priority_queue/mod.rs": 1},
+    "peek": {"src/priority_queue/mod.rs": 1},
+    "peek_max": {"src/double_priority_queue/mod.rs": 1},
+    "peek_max_mut": {"src/double_priority_queue/mod.rs": 1},
+    "peek_min": {"src/double_priority_queue/mod.rs": 1},
+    "peek_min_mut": {"src/double_priority_queue/mod.rs": 1},
+    "peek_mut": {"src/priority_queue/mod.rs": 1},
+    "pop": {"src/priority_queue/mod.rs": 1},
+    "pop_if": {"src/priority_queue/mod.rs": 1},
+    "pop_max": {"src/double_priority_queue/mod.rs": 1},
+    "pop_max_if": {"src/double_priority_queue/mod.rs": 1},
+    "pop_min": {"src/double_priority_queue/mod.rs": 1},
+    "pop_min_if": {"src/double_priority_queue/mod.rs": 1},
+    "push": {"src/double_priority_queue/mod.rs": 1, "src/priority_queue/mod.rs": 1},
+    "push_decrease": {"src/double_priority_queue/mod.rs": 1, "src/priority_queue/mod.rs": 1},
+    "push_increase": {"src/double_priority_queue/mod.rs": 1, "src/priority_queue/mod.rs": 1},
+    "remove": {"src/double_priority_queue/mod.rs": 1, "src/priority_queue/mod.rs": 1, "src/store.rs": 1},
+    "replace": {},
+    "retain": {"src/double_priority_queue/mod.rs": 1, "src/priority_queue/mod.rs": 1, "src/store.rs": 1},
+    "retain_mut": {"src/double_priority_queue/mod.rs": 1, "src/priority_queue/mod.rs": 1, "src/store.rs": 1},
+    "right": {"src/double_priority_queue/mod.rs": 1, "src/priority_queue/mod.rs": 1},
+    "swap": {"src/store.rs": 1},
+    "swap_remove": {"src/store.rs": 1},
+    "swap_remove_if": {"src/store.rs": 1},
+    "up_heapify": {"src/double_priority_queue/mod.rs": 1, "src/priority_queue/mod.rs": 1},
+    "visit_seq": {"src/store.rs": 1},
+}
+
+ALLOWED_ITEM_ATTRS = [["#", "[", "inline", "]"], ["#", "[", "inline", "(", "always", ")", "]"]]
+SERDE_MOD_ATTR = ["#", "[", "cfg", "(", "feature", "=", '"serde"', ")", "]"]
+SERDE_DOC_ATTR = ["#", "[", "cfg_attr", "(", "docsrs", ",", "doc", "(", "cfg", "(", "feature", "=", '"serde"', ")", ")", ")", "]"]
+SERDE_FNS = {"storeVisitSeq", "pqDeserialize", "dqDeserialize"}
+
+
+def split_attrs(vals):
+    """leading `#[..]` attributes of a token-value list -> (list of attributes, rest)"""
+    attrs, i = [], 0
+    while i < len(vals) and vals[i] == "#":
+        j = i + 1
+        if j < len(vals) and vals[j] == "!":
+            j += 1
+        if j >= len(vals) or vals[j] != "[":
+            break
+        d, k = 0, j
+        while k < len(vals):
+            if vals[k] == "[": d += 1
+            elif vals[k] == "]":
+                d -= 1
+                if d == 0: break
+            k += 1
+        attrs.append(vals[i:k + 1])
+        i = k + 1
+    return attrs, vals[i:]
+
+
+def item_header(toks, idx):
+    """token values of the item header that ends just before token `idx` (back to the previous `;` `{` `}`)"""
+    j = idx - 1
+    d = 0
+    while j >= 0:
+        v = toks[j][1]
+        if v in (")", "]", ">"): d += 1          # `pub(crate)`, attribute brackets, generics
+        elif v in ("(", "[", "<"): d -= 1
+        elif v in (";", "{", "}") and d <= 0:
+            break
+        j -= 1
+    return [t[1] for t in toks[j + 1:idx]]
+
+
+def check_fn_context(toks, fn_idx, fnid, what):
+    """attributes on the `fn` item and on every enclosing `impl` / `mod`; raises Unparsed"""
+    attrs, rest = split_attrs(item_header(toks, fn_idx))
+    for a in attrs:
+        if a not in ALLOWED_ITEM_ATTRS:
+            raise Unparsed("%s carries the attribute `%s`" % (what, " ".join(a)))
+    for q in rest:
+        if q not in ("pub", "(", ")", "crate", "const", "unsafe"):
+            raise Unparsed("%s: unexpected qualifier `%s`" % (what, q))
+    stack = []
+    for k in range(fn_idx):
+        v = toks[k][1]
+        if v == "{": stack.append(k)
+        elif v == "}" and stack: stack.pop()
+    for open_idx in stack:
+        hattrs, hrest = split_attrs(item_header(toks, open_idx))
+        kind = next((q for q in hrest if q in ("impl", "mod", "fn", "trait")), None)
+        if kind == "impl":
+            if hattrs:
+                raise Unparsed("%s is inside an `impl` block with the attribute `%s`" % (what, " ".join(hattrs[0])))
+        elif kind == "mod" and hrest[-2:] == ["mod", "serde"] and fnid in SERDE_FNS:
+            if hattrs not in ([SERDE_MOD_ATTR], [SERDE_MOD_ATTR, SERDE_DOC_ATTR]):
+                raise Unparsed("%s: unexpected attributes on `mod serde`" % what)
+        else:
+            raise Unparsed("%s is nested in `%s`" % (what, " ".join(hrest[-3:])))
+
+
+def norm_ws(text):
+    return re.sub(r"\s+", " ", text).strip()
+
+
+STRUCT_SNIPPETS = {
+    STORE_RS: [
+        "#[derive(Copy, Clone, Debug, Ord, PartialOrd, Eq, PartialEq)] pub(crate) struct Index(pub usize);",
+        "#[derive(Copy, Clone, Debug, Ord, PartialOrd, Eq, PartialEq)] pub(crate) struct Position(pub usize);",
+        "pub(crate) struct Hole<'a> { heap: &'a mut [Index], qp: &'a mut [Position], pub position: Position, "
+        "map_position: Index, }",
+        "#[derive(Clone)] #[cfg(feature = \"std\")] pub(crate) struct Store<I, P, H = RandomState> { "
+        "pub map: IndexMap<I, P, H>, pub heap: Vec<Index>, pub qp: Vec<Position>, pub size: usize, }",
+        "#[derive(Clone)] #[cfg(not(feature = \"std\"))] pub(crate) struct Store<I, P, H> { "
+        "pub map: IndexMap<I, P, H>, pub heap: Vec<Index>, pub qp: Vec<Position>, pub size: usize, }",
+        "use std::mem::swap;",
+        "use indexmap::map::{IndexMap, MutableKeys};",
+    ],
+    PQ_RS: [
+        "#[derive(Clone, Debug)] #[cfg(feature = \"std\")] pub struct PriorityQueue<I, P, H = RandomState> { "
+        "pub(crate) store: Store<I, P, H>, }",
+        "#[derive(Clone, Debug)] #[cfg(not(feature = \"std\"))] pub struct PriorityQueue<I, P, H> { "
+        "pub(crate) store: Store<I, P, H>, }",
+        "use std::mem::replace;",
+        "use crate::store::{Hole, Index, Position, Store};",
+    ],
+    DQ_RS: [
+        "#[derive(Clone)] #[cfg(feature = \"std\")] pub struct DoublePriorityQueue<I, P, H = RandomState> { "
+        "pub(crate) store: Store<I, P, H>, }",
+        "#[derive(Clone)] #[cfg(not(feature = \"std\"))] pub struct DoublePriorityQueue<I, P, H> { "
+        "pub(crate) store: Store<I, P, H>, }",
+        "use std::mem::replace;",
+        "use crate::store::{Hole, Index, Position, Store};",
+    ],
+}
+# the one-line accessors that the lowering reads as `.len` / `len == 0`: (file, name, body tokens)
+ACCESSORS = [
+    (STORE_RS, "len", "{ self . size }"), (STORE_RS, "is_empty", "{ self . size == 0 }"),
+    (PQ_RS, "len", "{ self . store . len ( ) }"), (PQ_RS, "is_empty", "{ self . store . is_empty ( ) }"),
+    (DQ_RS, "len", "{ self . store . len ( ) }"), (DQ_RS, "is_empty", "{ self . store . is_empty ( ) }"),
+]
+
+
+def all_src_files():
+    out = {}
+    root = os.path.join(REPO, "src")
+    for d, _, fs in os.walk(root):
+        for f in sorted(fs):
+            if f.endswith(".rs"):
+                path = os.path.join(d, f)
+                out[os.path.relpath(path, REPO)] = strip_comments(open(path).read())
+    return out
+
+
+def count_defs(texts, names):
+    """{name: {file: number of `fn name` items}} over all source files"""
+    res = {}
+    for file, text in texts.items():
+        for m in re.finditer(r"\bfn\s+([A-Za-z_][A-Za-z_0-9]*)", text):
+            if m.group(1) in names:
+                res.setdefault(m.group(1), {}).setdefault(file, 0)
+                res[m.group(1)][file] += 1
+    return res
+
+
+def global_checks(sources):
+    """problems that invalidate every translation"""
+    problems = []
+    try:
+        texts = all_src_files()
+    except OSError as ex:
+        return ["cannot read the sources: %s" % ex]
+    for file, text in texts.items():
+        if re.search(r"\bmacro_rules\b", text):
+            problems.append("`macro_rules!` in %s (a macro could define or replace any function)" % file)
+        m = re.search(r"\bimpl\b[^{;]*\bfor\s+(Position|Index)\b", text)
+        if m:
+            problems.append("manual trait impl for `%s` in %s (their comparison is assumed to be the derived one)"
+                            % (m.group(1), file))
+    for file, snippets in STRUCT_SNIPPETS.items():
+        text = norm_ws(texts.get(file, ""))
+        for sn in snippets:
+            if text.count(norm_ws(sn)) != 1:
+                problems.append("%s: expected exactly one `%s`" % (file, sn[:70] + ("…" if len(sn) > 70 else "")))
+    for file, name, body in ACCESSORS:
+        fs = find_fns(sources.get(file, []), name) if sources.get(file) else []
+        ok = len(fs) == 1 and [p[0] for p in fs[0][0]] == ["self"] and " ".join(t[1] for t in fs[0][2]) == body
+        if ok:
+            try:
+                check_fn_context(sources[file], fs[0][3], None, "`%s::%s`" % (file, name))
+            except Unparsed as ex:
+                ok = False
+                problems.append(str(ex))
+        if not ok:
+            problems.append("accessor `%s` of %s is not the expected one-liner `%s`" % (name, file, body))
+    names = set(EXPECTED_DEFS)
+    got = count_defs(texts, names)
+    for name in sorted(names):
+        if got.get(name, {}) != EXPECTED_DEFS[name]:
+            problems.append("definitions of `fn %s` in the crate: found %s, expected %s"
+                            % (name, json.dumps(got.get(name, {}), sort_keys=True),
+                               json.dumps(EXPECTED_DEFS[name], sort_keys=True)))
+    return problems
+
+
+# ----------------------------------------------------------------------------------------------------
 # parser: tokens -> AST (tuples)
 # ----------------------------------------------------------------------------------------------------
 
@@ -179,6 +417,8 @@ class Parser:
         return v
 
     def skip_attrs(self):
+        if self.peek() == "#":
+            raise Unparsed("attribute inside a function body (conditional compilation is not followed)")
         while self.peek() == "#":
             self.eat("#")
             if self.peek() == "!": self.eat("!")
@@ -231,10 +471,24 @@ class Parser:
         if v == "break":
             self.eat("break"); self.eat(";")
             return ("break",), False
+        if v == "const":
+            self.eat("const")
+            name = self.ident()
+            self.eat(":")
+            self.skip_type()
+            self.eat("=")
+            e = self.expr()
+            self.eat(";")
+            return ("const", name, e), False
         if v == "while":
             self.eat("while")
             if self.peek() == "let":
-                raise Unparsed("while let")
+                self.eat("let")
+                pat = self.pattern()
+                self.eat("=")
+                e = self.expr(nostruct=True)
+                b = self.block()
+                return ("whilelet", pat, e, b), False
             c = self.expr(nostruct=True)
             b = self.block()
             return ("while", c, b), False
@@ -250,7 +504,7 @@ class Parser:
                 self.eat()
             self.eat(";")
             return ("expr", ("tuple", [])), False
-        if v in ("loop", "const", "static", "fn", "struct", "impl", "continue"):
+        if v in ("loop", "static", "fn", "struct", "impl", "continue"):
             raise Unparsed("statement `%s`" % v)
         if v in ("if", "match", "unsafe", "{"):
             # a block-like expression at the start of a statement IS the statement (Rust does not continue it with
@@ -435,7 +689,8 @@ class Parser:
             elif v == "(":
                 e = ("call", e, self.args())
             elif v == "?":
-                raise Unparsed("`?` operator")
+                self.eat("?")
+                e = ("try", e)
             elif v == "as":
                 raise Unparsed("`as` cast")
             elif v == "[":
@@ -519,6 +774,12 @@ class Parser:
                 arms.append((pat, body))
             self.eat("}")
             return ("match", scrut, arms)
+        if v == "<" and self.peek(1) == "_" and self.peek(2) == ">" and self.peek(3) == "::":
+            self.eat("<"); self.eat("_"); self.eat(">"); self.eat("::")
+            name = self.ident()
+            if name != "default" or self.args():
+                raise Unparsed("`<_>::%s`" % name)
+            return ("hasher",)
         if v in ("|", "||"):
             params = []
             if v == "||":
@@ -629,6 +890,27 @@ FUNCS = [
     ("pqPeekMut", PQ_RS, "peek_mut", "pq", [("getU", 209)]),
     ("dqPeekMinMut", DQ_RS, "peek_min_mut", "dq", [("getU", 329)]),
     ("dqPeekMaxMut", DQ_RS, "peek_max_mut", "dq", [("getU", 330)]),
+    ("pqRetainMut", PQ_RS, "retain_mut", "pq", []),
+    ("dqRetainMut", DQ_RS, "retain_mut", "dq", []),
+    ("pqRetain", PQ_RS, "retain", "pq", []),
+    ("dqRetain", DQ_RS, "retain", "dq", []),
+    ("pqAppend", PQ_RS, "append", "pq", []),
+    ("dqAppend", DQ_RS, "append", "dq", []),
+    ("pqExtend", PQ_RS, "extend", "pq", []),
+    ("dqExtend", DQ_RS, "extend", "dq", []),
+    ("pqFromVec", PQ_RS, "from", "pq", [], "Vec"),
+    ("dqFromVec", DQ_RS, "from", "dq", [], "Vec"),
+    ("pqFromQueue", PQ_RS, "from", "pq", [], "DoublePriorityQueue"),
+    ("dqFromQueue", DQ_RS, "from", "dq", [], "PriorityQueue"),
+    ("pqFromIter", PQ_RS, "from_iter", "pq", []),
+    ("dqFromIter", DQ_RS, "from_iter", "dq", []),
+    ("pqDeserialize", PQ_RS, "deserialize", "pq", []),
+    ("dqDeserialize", DQ_RS, "deserialize", "dq", []),
+    ("storeFromVec", STORE_RS, "from", "ctor", []),
+    ("storeFromIter", STORE_RS, "from_iter", "ctor", [("unwrap", 191)]),
+    ("storeExtend", STORE_RS, "extend", "store", [("unwrap", 192)]),
+    ("storeVisitSeq", STORE_RS, "visit_seq", "ctor", []),
+    ("storeRetain", STORE_RS, "retain", "store", []),
     ("storeClear", STORE_RS, "clear", "store", []),
     ("storeDrain", STORE_RS, "drain", "store", []),
     ("storeRetainMut", STORE_RS, "retain_mut", "store", []),
@@ -655,7 +937,11 @@ ALL_FNIDS = ["storeSwap", "storePrioAt", "storeSwapRemove", "storeRemove",
              "pqPopIf", "dqPopMinIf", "dqPopMaxIf", "pqPeek", "dqPeekMin", "dqPeekMax", "pqPeekMut", "dqPeekMinMut",
              "dqPeekMaxMut",
              "storeFromVec", "storeFromIter", "storeExtend", "storeVisitSeq",
-             "pqExtend", "dqExtend", "pqAppend", "dqAppend", "pqRetainMut", "dqRetainMut", "pqRetain", "dqRetain"]
+             "pqExtend", "dqExtend", "pqAppend", "dqAppend", "pqRetainMut", "dqRetainMut", "pqRetain", "dqRetain",
+             "storeRetain", "pqFromVec", "dqFromVec", "pqFromIter", "dqFromIter", "pqFromQueue", "dqFromQueue",
+             "pqDeserialize", "dqDeserialize",
+             "pqIterMutNext", "pqIterMutNextBack", "pqIterMutLen", "pqIterMutSizeHint", "pqIterMutDrop",
+             "dqIterMutNext", "dqIterMutNextBack", "dqIterMutLen", "dqIterMutSizeHint", "dqIterMutDrop"]
 HOLE_METHODS = ["new", "index_at", "move_from", "drop"]
 # methods of the queue (`self.m(..)`) / of the store (`self.store.m(..)`) that are calls of translated functions
 QUEUE_CALLS = {"pq": {"heapify": "pqHeapify", "bubble_up": "pqBubbleUp", "up_heapify": "pqUpHeapify",
@@ -664,7 +950,10 @@ QUEUE_CALLS = {"pq": {"heapify": "pqHeapify", "bubble_up": "pqBubbleUp", "up_hea
                       "bubble_up": "dqBubbleUp", "up_heapify": "dqUpHeapify", "heap_build": "dqHeapBuild",
                       "find_max": "dqFindMax", "find_min": "dqFindMin", "push": "dqPush"}}
 STORE_CALLS = {"swap": "storeSwap", "swap_remove": "storeSwapRemove", "remove": "storeRemove",
-               "swap_remove_if": "storeSwapRemoveIf"}
+               "swap_remove_if": "storeSwapRemoveIf", "retain_mut": "storeRetainMut", "retain": "storeRetain",
+               "extend": "storeExtend"}
+# associated functions `Store::f(x)` that construct the store from an input
+STORE_CTORS = {"from": ("storeFromVec", "S"), "from_iter": ("storeFromIter", "IT"), "deserialize": ("storeVisitSeq", "SEQ")}
 # return kinds of the callable functions: N = usize/Position/Index, U = (), P = &P
 # associated functions taking `hole: &mut Hole` (called as `Self::f(map, &mut hole, priority)`): in the IR the hole is passed
 # as its two `usize` fields and the new `hole.position` is returned
@@ -672,7 +961,8 @@ HOLE_FNS = {"dq": {"bubble_up_min": "dqBubbleUpMin", "bubble_up_max": "dqBubbleU
 RET_KIND = {"storeSwap": "U", "storePrioAt": "P", "pqHeapify": "U", "pqBubbleUp": "N", "pqUpHeapify": "U",
             "pqHeapBuild": "U", "dqHeapify": "U", "dqHeapifyMin": "U", "dqHeapifyMax": "U", "dqBubbleUp": "N",
             "dqUpHeapify": "U", "dqHeapBuild": "U", "storeSwapRemove": "E", "storeRemove": "R",
-            "dqFindMax": "ON", "dqFindMin": "ON", "storeSwapRemoveIf": "E", "pqPush": "OP", "dqPush": "OP"}
+            "dqFindMax": "ON", "dqFindMin": "ON", "storeSwapRemoveIf": "E", "pqPush": "OP", "dqPush": "OP",
+            "storeRetainMut": "U", "storeRetain": "U", "storeExtend": "U"}
 
 
 # ----------------------------------------------------------------------------------------------------
@@ -775,9 +1065,9 @@ class Lower:
             b = self.lookup(e[1][0])
             if b and b[0] in ("N", "P"):
                 return b[0]
-            if b and b[0] == "mutref":
+            if b and b[0] in ("mutref", "const"):
                 return "N"
-            if b and b[0] in ("V", "I", "slotI", "slotP"):
+            if b and b[0] in ("V", "I", "slotI", "slotP", "S", "IT", "SEQ", "B"):
                 return b[0]
             return None
         if self.is_mapprio(e) is not None:
@@ -797,6 +1087,8 @@ class Lower:
                 b = self.lookup(e[1][0])
                 if b and b[0] == "N":
                     return ("var", b[1])
+                if b and b[0] == "const":
+                    return ("lit", b[1])
                 if b and b[0] == "mutref":          # reading through `let x = v.get_unchecked_mut(i)`
                     return ("var", b[3])
             raise Unparsed("`%s` is not a usize variable in scope" % "::".join(e[1]))
@@ -844,6 +1136,13 @@ class Lower:
                 return ("len",)
             if name == "len" and not args and p == "MAP":
                 return ("mapLen",)
+            rb0 = strip(recv)
+            if name == "len" and not args and rb0[0] == "path" and len(rb0[1]) == 1 \
+                    and (self.lookup(rb0[1][0]) or ("",))[0] == "S":
+                return ("entriesLen", self.lookup(rb0[1][0])[1])
+            if name == "min" and len(args) == 1 and self.kind(recv) == "N":
+                a = self.n(recv); b = self.n(args[0])
+                return ("min", a, b)
             if name == "get_unchecked" and len(args) == 1 and p in ("HEAP", "QP"):
                 a = self.n(args[0])
                 return ("heapGetU" if p == "HEAP" else "qpGetU", self.site("getU"), a)
@@ -860,7 +1159,8 @@ class Lower:
     def pure_n(self, x):
         """an IR usize expression that cannot fault"""
         return x[0] in ("lit", "var", "len", "mapLen", "otherSize", "entriesLen") or (x[0] in ("left", "right", "level") and self.pure_n(x[1])) \
-            or (x[0] in ("add", "mul", "div", "mod") and self.pure_n(x[1]) and self.pure_n(x[2]))
+            or (x[0] in ("add", "mul", "div", "mod", "min") and self.pure_n(x[1]) and self.pure_n(x[2])) \
+            or x[0] == "iterLo"
 
     # ---- priority expressions
     def p(self, e):
@@ -900,11 +1200,12 @@ class Lower:
         if e[0] == "call" and e[1][0] == "path" and len(e[1][1]) == 1 and len(e[2]) == 2:
             fb = self.lookup(e[1][1][0])
             a0, a1 = strip(e[2][0]), strip(e[2][1])
-            if fb and fb[0] == "V" and a0[0] == "path" and a1[0] == "path" and len(a0[1]) == 1 and len(a1[1]) == 1:
-                b0, b1 = self.lookup(a0[1][0]), self.lookup(a1[1][0])
-                if b0 and b1 and b0[0] == "slotI" and b1[0] == "slotP" and b0[1] == b1[1]:
-                    return ("predAt", fb[1], b0[1])
-            raise Unparsed("call of a closure that is not `f(i, p)` on an entry `(i, p)` of the map")
+            if fb and fb[0] == "V":
+                if a0[0] == "path" and a1[0] == "path" and len(a0[1]) == 1 and len(a1[1]) == 1:
+                    b0, b1 = self.lookup(a0[1][0]), self.lookup(a1[1][0])
+                    if b0 and b1 and b0[0] == "slotI" and b1[0] == "slotP" and b0[1] == b1[1]:
+                        return ("predAt", fb[1], b0[1])
+                raise Unparsed("call of a closure that is not `f(i, p)` on an entry `(i, p)` of the map")
         if e[0] == "mcall" and e[2] == "map_or" and len(e[3]) == 2 and strip(e[3][0]) == ("path", ["true"]) \
                 and e[3][1][0] == "closure":
             g, clo = strip(e[1]), e[3][1]
@@ -925,6 +1226,19 @@ class Lower:
             if ib and ib[0] == "I":
                 return ("containsKey", ib[1])
             raise Unparsed("`contains_key` of something that is not an item variable")
+        if e[0] == "mcall" and e[2] == "is_none" and not e[3]:
+            g = strip(e[1])
+            if g[0] == "mcall" and g[2] == "insert" and len(g[3]) == 2 and self.place(g[1]) == "MAP":
+                a = strip(g[3][0])
+                ib = self.lookup(a[1][0]) if a[0] == "path" and len(a[1]) == 1 else None
+                if ib and ib[0] == "I" and self.kind(g[3][1]) == "P":
+                    return ("mapInsertIsNone", ib[1], self.p(g[3][1]))
+            raise Unparsed("`is_none()` that is not `map.insert(item, priority).is_none()`")
+        if e[0] == "call" and e[1] == ("path", ["better_to_rebuild"]) and len(e[2]) == 2:
+            a = self.n(e[2][0]); b = self.n(e[2][1])
+            return ("betterToRebuild", a, b)
+        if e[0] == "path" and len(e[1]) == 1 and (self.lookup(e[1][0]) or ("",))[0] == "B":
+            return ("neN", ("var", self.lookup(e[1][0])[1]), ("lit", 0))
         if e[0] == "mcall" and e[2] == "is_some" and not e[3]:
             r = strip(e[1])
             if r[0] == "path" and len(r[1]) == 1 and (self.lookup(r[1][0]) or ("",))[0] == "V":
@@ -939,6 +1253,7 @@ class Lower:
         fs = find_fns(self.sources[STORE_RS], name)
         if len(fs) != 1:
             raise Unparsed("expected exactly one `fn %s` in store.rs (Hole), found %d" % (name, len(fs)))
+        check_fn_context(self.sources[STORE_RS], fs[0][3], None, "`Hole::%s`" % name)
         return fs[0][0], parse_fn_body(fs[0][2])
 
     def simple_arg(self, a):
@@ -1001,6 +1316,57 @@ class Lower:
         finally:
             self.scopes = saved
 
+    def is_bool(self, e):
+        e = strip(e)
+        return e in (("path", ["true"]), ("path", ["false"])) or \
+            (e[0] == "call" and e[1] == ("path", ["better_to_rebuild"])) or \
+            (e[0] == "bin" and e[1] in ("<", ">", "<=", ">=", "==", "!=", "&&"))
+
+    def store_ctor(self, e):
+        """`Self::with_capacity_and_hasher(e, <_>::default())`, `Self::with_hasher(..)`, `Store::with_default_hasher()`, ... -> IR"""
+        e = strip(e)
+        if e[0] == "call" and e[1][0] == "path" and len(e[1][1]) == 2 and e[1][1][0] in ("Self", "Store") \
+                and self.owner in ("ctor",):
+            name, args = e[1][1][1], e[2]
+            if name == "with_capacity_and_hasher" and len(args) == 2 and strip(args[1]) == ("hasher",):
+                return [("storeNewCap", self.n(args[0]))]
+            if name == "with_capacity_and_default_hasher" and len(args) == 1:
+                return [("storeNewCap", self.n(args[0]))]
+            if name == "with_hasher" and len(args) == 1 and strip(args[0]) == ("hasher",):
+                return [("storeNew",)]
+            if name == "with_default_hasher" and not args:
+                return [("storeNew",)]
+        return None
+
+    def store_ctor_expr(self, e):
+        """a store-valued expression: a constructor, `if c { ctor } else { ctor }`, `if let Some(n) = seq.size_hint() ..`"""
+        c = self.store_ctor(e)
+        if c is not None:
+            return c
+        if e[0] == "if" and e[3] is not None and e[2][0] == "block" and e[3][0] == "block" \
+                and not e[2][1] and not e[3][1] and e[2][2] is not None and e[3][2] is not None:
+            t, f = self.store_ctor(e[2][2]), self.store_ctor(e[3][2])
+            if t is not None and f is not None:
+                return [("ite", self.b(e[1]), t, f)]
+        if e[0] == "iflet" and e[4] is not None and not e[3][1] and not e[4][1] and e[3][2] is not None \
+                and e[4][2] is not None:
+            pat, scrut = e[1], strip(e[2])
+            sb = strip(scrut[1]) if scrut[0] == "mcall" else None
+            if pat[0] == "pctor" and pat[1] == ["Some"] and len(pat[2]) == 1 and pat[2][0][0] == "pid" \
+                    and scrut[0] == "mcall" and scrut[2] == "size_hint" and not scrut[3] and sb[0] == "path" \
+                    and len(sb[1]) == 1 and (self.lookup(sb[1][0]) or ("",))[0] == "SEQ":
+                self.scopes.append({})
+                try:
+                    v = self.fresh(pat[2][0][1], "N")
+                    self.bind(pat[2][0][1], ("N", v))
+                    t = self.store_ctor(e[3][2])
+                finally:
+                    self.scopes.pop()
+                f = self.store_ctor(e[4][2])
+                if t is not None and f is not None:
+                    return [("ifSeqHint", self.lookup(sb[1][0])[1], v, t, f)]
+        return None
+
     def split_args(self, args):
         """arguments of a call of a translated function: usize / priority / value (item, closure) arguments"""
         ns, ps, vs = [], [], []
@@ -1008,7 +1374,7 @@ class Lower:
             k = self.kind(a)
             if k == "P":
                 ps.append(self.p(a))
-            elif k in ("V", "I"):
+            elif k in ("V", "I", "S", "IT", "SEQ"):
                 a0 = strip(a)
                 vs.append(self.lookup(a0[1][0])[1])
             else:
@@ -1156,6 +1522,34 @@ class Lower:
             if self.live_holes:
                 raise Unparsed("priority result with a live hole")
             return [("retP", self.p(e))]
+        if tail_ret == "SELF":
+            t0 = strip(e)
+            if self.place(t0) in ("STORE", "QUEUE"):
+                return []
+            raise Unparsed("result that is not the constructed store / queue")
+        if tail_ret == "RESQ":
+            t0 = strip(e)
+            if t0[0] == "mcall" and t0[2] == "map" and len(t0[3]) == 1 and t0[3][0][0] == "closure":
+                g, clo = strip(t0[1]), t0[3][0]
+                if g[0] == "call" and g[1] == ("path", ["Store", "deserialize"]) and len(g[2]) == 1 \
+                        and len(clo[1]) == 1 and clo[1][0][0] == "pid" and clo[2][0] == "block":
+                    a = strip(g[2][0])
+                    ab = self.lookup(a[1][0]) if a[0] == "path" and len(a[1]) == 1 else None
+                    if ab and ab[0] == "SEQ":
+                        pre = [("callX", self.fresh("_", "V"), "storeVisitSeq", [], [], [ab[1]])]
+                        self.scopes.append({})
+                        try:
+                            self.bind(clo[1][0][1], ("place", "STORE"))
+                            body = self.block_stmts(clo[2], "SELF")
+                        finally:
+                            self.scopes.pop()
+                        return pre + body
+            raise Unparsed("result that is not `Store::deserialize(d).map(|store| { .. })`")
+        if tail_ret == "RES":
+            t0 = strip(e)
+            if t0[0] == "call" and t0[1] == ("path", ["Ok"]) and len(t0[2]) == 1 and self.place(t0[2][0]) in ("STORE", "QUEUE"):
+                return []
+            raise Unparsed("result that is not `Ok(store)`")
         if tail_ret == "OPN!":
             t0 = strip(e)
             if t0[0] == "tuple" and len(t0[1]) == 2 and self.kind(t0[1][0]) == "P":
@@ -1508,6 +1902,49 @@ class Lower:
     def set_var(self, name, e, declare):
         """`let name = e;` (declare) or `name = e;`"""
         es = strip(e)
+        if declare and self.owner == "ctor":
+            c = self.store_ctor_expr(e if e[0] in ("if", "iflet") else es)
+            if c is not None:
+                self.bind(name, ("place", "STORE"))
+                return c
+        if declare and es[0] == "call" and es[1][0] == "path" and len(es[1][1]) == 2 and es[1][1][0] == "Store" \
+                and es[1][1][1] in STORE_CTORS and len(es[2]) == 1 and self.owner in ("pq", "dq"):
+            fid, want = STORE_CTORS[es[1][1][1]]
+            a = strip(es[2][0])
+            ab = self.lookup(a[1][0]) if a[0] == "path" and len(a[1]) == 1 else None
+            if ab and ab[0] == want:
+                self.bind(name, ("place", "STORE"))
+                return [("callX", self.fresh("_", "V"), fid, [], [], [ab[1]])]
+            raise Unparsed("`Store::%s` of an unexpected argument" % es[1][1][1])
+        if declare and es[0] == "struct" and es[1] in (["PriorityQueue"], ["DoublePriorityQueue"], ["Self"]) \
+                and len(es[2]) == 1 and es[2][0][0] == "store" and self.place(es[2][0][1]) == "STORE" \
+                and self.owner in ("pq", "dq"):
+            self.bind(name, ("place", "QUEUE"))
+            return []
+        if declare and e[0] == "if" and e[3] is not None and e[2][0] == "block" and e[3][0] == "block" \
+                and e[2][2] is not None and e[3][2] is not None and self.is_bool(e[2][2]) and self.is_bool(e[3][2]):
+            # `let b = if c { ..; bool } else { ..; bool };`
+            v = self.fresh(name, "B")
+            c = self.b(e[1])
+            def arm(blk):
+                self.scopes.append({})
+                try:
+                    code = []
+                    for st in blk[1]:
+                        code += self.stmt(st)
+                    return code + [("ite", self.b(blk[2]), [("setN", v, ("lit", 1))], [("setN", v, ("lit", 0))])]
+                finally:
+                    self.scopes.pop()
+            t, f = arm(e[2]), arm(e[3])
+            self.bind(name, ("B", v))
+            return [("ite", c, t, f)]
+        if declare and es[0] == "mcall" and es[2] == "into_iter" and not es[3]:
+            ib = strip(es[1])
+            b0 = self.lookup(ib[1][0]) if ib[0] == "path" and len(ib[1]) == 1 else None
+            if b0 and b0[0] == "IT":
+                self.bind(name, b0)
+                return []
+            raise Unparsed("`into_iter()` of something that is not an iterator parameter")
         # aliases of places
         if declare and self.place(e) is not None:
             self.bind(name, ("place", self.place(e)))
@@ -1592,6 +2029,32 @@ class Lower:
             pat, e = s[1], s[2]
             if pat[0] == "pid":
                 return self.set_var(pat[1], e, True)
+            if pat[0] == "ptuple" and len(pat[1]) == 2 and pat[1][0][0] == "pid" and pat[1][1][0] == "pwild":
+                u = strip(e)
+                ub = strip(u[1]) if u[0] == "mcall" else None
+                if u[0] == "mcall" and u[2] == "size_hint" and not u[3] and ub[0] == "path" and len(ub[1]) == 1 \
+                        and (self.lookup(ub[1][0]) or ("",))[0] == "IT":
+                    v = self.fresh(pat[1][0][1], "N")
+                    self.bind(pat[1][0][1], ("N", v))
+                    return [("setN", v, ("iterLo", self.lookup(ub[1][0])[1]))]
+                raise Unparsed("`let (x, _) = e` that is not `iter.size_hint()`")
+            if pat[0] == "ptuple" and len(pat[1]) == 3 and pat[1][0][0] == "pwild" \
+                    and all(q[0] in ("pid", "pwild") for q in pat[1]):
+                u = strip(e)
+                if u[0] == "mcall" and u[2] == "unwrap" and not u[3]:
+                    g = strip(u[1])
+                    if g[0] == "mcall" and g[2] == "get_full_mut2" and len(g[3]) == 1 and self.place(g[1]) == "MAP":
+                        a = strip(g[3][0])
+                        ib = self.lookup(a[1][0]) if a[0] == "path" and len(a[1]) == 1 else None
+                        if ib and ib[0] == "I":
+                            vi = self.fresh("slot", "N")
+                            site = self.site("unwrap")
+                            if pat[1][1][0] == "pid":
+                                self.bind(pat[1][1][1], ("slotI", vi))
+                            if pat[1][2][0] == "pid":
+                                self.bind(pat[1][2][1], ("slotP", vi))
+                            return [("fullMut2", site, ib[1], vi)]
+                raise Unparsed("`let (_, a, b) = e` that is not `map.get_full_mut2(&item).unwrap()`")
             if pat[0] == "ptuple" and len(pat[1]) == 2 and all(q[0] == "pid" for q in pat[1]):
                 u = strip(e)
                 if u[0] == "mcall" and u[2] == "unwrap" and not u[3]:
@@ -1655,6 +2118,14 @@ class Lower:
                     return [("heapSetU" if self.place(m[1]) == "HEAP" else "qpSetU", self.site("setU"), i, x)]
                 if m[0] == "path" and len(m[1]) == 1:
                     b = self.lookup(m[1][0])
+                    if b and b[0] == "slotI":
+                        r = strip(rhs)
+                        rb = self.lookup(r[1][0]) if r[0] == "path" and len(r[1]) == 1 else None
+                        if rb and rb[0] == "I":
+                            return [("slotSetItem", ("var", b[1]), rb[1])]
+                        raise Unparsed("`*item_slot = e` where `e` is not an item variable")
+                    if b and b[0] == "slotP":
+                        return [("slotSetPrio", ("var", b[1]), self.p(rhs))]
                     if b and b[0] == "mutref":
                         x = self.n(rhs)
                         if not self.pure_n(x):
@@ -1695,6 +2166,34 @@ class Lower:
             if r0 == ("path", ["None"]) and self.ret_kind in ("EM", "E", "OP"):
                 return [({"EM": "retNoneSlot", "E": "retNoneE", "OP": "retNoneP"}[self.ret_kind],)]
             raise Unparsed("`return e`")
+        if t == "const":
+            v = strip(s[2])
+            if v[0] != "num":
+                raise Unparsed("`const` that is not a literal")
+            self.bind(s[1], ("const", v[1]))
+            return []
+        if t == "whilelet":
+            pat, e, blk = s[1], strip(s[2]), s[3]
+            ok = (pat[0] == "pctor" and pat[1] == ["Some"] and len(pat[2]) == 1 and pat[2][0][0] == "ptuple"
+                  and len(pat[2][0][1]) == 2 and all(q[0] == "pid" for q in pat[2][0][1]) and e[0] == "try")
+            if ok:
+                m = strip(e[1])
+                mb = strip(m[1]) if m[0] == "mcall" else None
+                ok = (m[0] == "mcall" and m[2] == "next_element" and not m[3] and mb[0] == "path" and len(mb[1]) == 1
+                      and (self.lookup(mb[1][0]) or ("",))[0] == "SEQ")
+            if not ok:
+                raise Unparsed("`while let` that is not `while let Some((item, priority)) = seq.next_element()?`")
+            src = self.lookup(mb[1][0])[1]
+            self.scopes.append({})
+            try:
+                iv = self.fresh(pat[2][0][1][0][1], "I")
+                pv = self.fresh(pat[2][0][1][1][1], "P")
+                self.bind(pat[2][0][1][0][1], ("I", iv))
+                self.bind(pat[2][0][1][1][1], ("P", pv))
+                body = self.block_stmts(blk, None)
+            finally:
+                self.scopes.pop()
+            return [("forEntries", src, iv, pv, body)]
         if t == "break":
             return [("brk",)]
         if t == "while":
@@ -1712,7 +2211,7 @@ class Lower:
                     if ob[0] == "path" and len(ob[1]) == 1 and (self.lookup(ob[1][0]) or ("",))[0] == "other":
                         src = self.fresh("drained", "V")
                         pre = [("drainOther", self.lookup(ob[1][0])[1], src)]
-                elif it[0] == "path" and len(it[1]) == 1 and (self.lookup(it[1][0]) or ("",))[0] == "S":
+                elif it[0] == "path" and len(it[1]) == 1 and (self.lookup(it[1][0]) or ("",))[0] in ("S", "IT"):
                     src = self.lookup(it[1][0])[1]
                 if src is None:
                     raise Unparsed("`for (k, v) in e` over something that is not `other.drain()` or a sequence parameter")
@@ -1785,6 +2284,22 @@ class Lower:
                 p = self.place(recv)
                 if p == "STORE" and name == "swap":
                     return [("call", "storeSwap", [self.n(a) for a in args], [])]
+                if p == "STORE" and name in STORE_CALLS and RET_KIND.get(STORE_CALLS[name]) == "U" \
+                        and self.owner in ("pq", "dq"):
+                    ns, ps, vs = self.split_args(args)
+                    return [("callX", self.fresh("_", "V"), STORE_CALLS[name], ns, ps, vs)]
+                if p == "STORE" and name == "append" and len(args) == 1 and self.owner in ("pq", "dq"):
+                    a = strip(args[0])
+                    ob = strip(a[1]) if a[0] == "field" and a[2] == "store" else None
+                    if ob and ob[0] == "path" and len(ob[1]) == 1 and (self.lookup(ob[1][0]) or ("",))[0] == "otherq":
+                        return [("appendOther", self.lookup(ob[1][0])[1])]
+                    raise Unparsed("`self.store.append` of something that is not `&mut other.store`")
+                if p == "QUEUE" and name == "reserve" and len(args) == 1:
+                    return [("reserve", self.n(args[0]))]
+                if p == "QUEUE" and name in QUEUE_CALLS.get(self.owner, {}) and \
+                        RET_KIND.get(QUEUE_CALLS[self.owner][name]) == "OP":
+                    ns, ps, vs = self.split_args(args)
+                    return [("callX", self.fresh("_", "V"), QUEUE_CALLS[self.owner][name], ns, ps, vs)]
                 if p == "QUEUE" and name in QUEUE_CALLS.get(self.owner, {}) and \
                         RET_KIND.get(QUEUE_CALLS[self.owner][name]) == "U":
                     return [("call", QUEUE_CALLS[self.owner][name], [self.n(a) for a in args], [])]
@@ -1805,6 +2320,19 @@ class Lower:
                     raise Unparsed("`map.insert` that is not `insert(item, priority)`")
                 if p in ("HEAP", "QP", "MAP") and name == "clear" and not args:
                     return [({"HEAP": "heapClear", "QP": "qpClear", "MAP": "mapClear"}[p],)]
+                if p == "STORE" and name == "retain_mut" and len(args) == 1 and args[0][0] == "closure":
+                    clo = args[0]
+                    okc = len(clo[1]) == 2 and all(q[0] == "pid" for q in clo[1])
+                    if okc:
+                        c = strip(clo[2])
+                        okc = (c[0] == "call" and c[1][0] == "path" and len(c[1][1]) == 1 and len(c[2]) == 2
+                               and c[2][0] == ("ref", ("deref", ("path", [clo[1][0][1]])))
+                               and c[2][1] == ("ref", ("deref", ("path", [clo[1][1][1]])))
+                               and (self.lookup(c[1][1][0]) or ("",))[0] == "V")
+                    if not okc:
+                        raise Unparsed("closure that is not `|i, p| predicate(&*i, &*p)`")
+                    tmp = self.fresh("adapted", "V")
+                    return [("adaptPred", tmp, self.lookup(c[1][1][0])[1]), ("callX", self.fresh("_", "V"), "storeRetainMut", [], [], [tmp])]
                 if p == "MAP" and name == "retain2" and len(args) == 1:
                     a = strip(args[0])
                     fb = self.lookup(a[1][0]) if a[0] == "path" and len(a[1]) == 1 else None
@@ -1869,6 +2397,13 @@ def ret_kind(rtoks):
         return "OPN"
     if txt == "-> Option < Position >":
         return "ON"
+    if txt == "-> Self":
+        return "SELF"
+    if txt in ("-> Result < Self :: Value , A :: Error >",):
+        return "RES"
+    if txt in ("-> Result < PriorityQueue < I , P , H > , D :: Error >",
+               "-> Result < DoublePriorityQueue < I , P , H > , D :: Error >"):
+        return "RESQ"
     if txt == "-> Option < P >":
         return "OP"
     if txt == "-> bool":
@@ -1886,7 +2421,8 @@ def ret_kind(rtoks):
 
 def param_binding(lw, name, ty):
     if name == "self":
-        return ("place", {"store": "STORE", "pq": "QUEUE", "dq": "QUEUE"}[lw.owner]), None
+        return ("place", {"store": "STORE", "pq": "QUEUE", "dq": "QUEUE", "ctor": "VISITOR", "pqctor": "VISITOR",
+                          "dqctor": "VISITOR"}[lw.owner]), None
     if ty in ("Position", "Index", "usize"):
         v = lw.fresh(name, "N")
         return ("N", v), ("n", v)
@@ -1896,9 +2432,26 @@ def param_binding(lw, name, ty):
     if ty == "P":
         v = lw.fresh(name, "P")
         return ("P", v), ("p", v)
+    if name == "self" and False:
+        pass
+    if ty == "Vec < ( I , P ) >":
+        v = lw.fresh(name, "S")
+        return ("S", v), ("v", v)
+    if ty in ("IT", "T"):
+        v = lw.fresh(name, "IT")
+        return ("IT", v), ("v", v)
+    if ty in ("A", "D"):
+        v = lw.fresh(name, "SEQ")
+        return ("SEQ", v), ("v", v)
     if ty == "I":
         v = lw.fresh(name, "I")
         return ("I", v), ("v", v)
+    if ty == "& mut Self" and lw.owner in ("pq", "dq"):
+        v = lw.fresh(name + ".store", "V")
+        lw.other_reg = v
+        return ("otherq", v), ("v", v)
+    if ty in ("DoublePriorityQueue < I , P , H >", "PriorityQueue < I , P , H >") and lw.owner in ("pq", "dq"):
+        return ("place", "QUEUE"), None
     if ty == "& mut Self" and lw.owner == "store":
         v = lw.fresh(name, "V")
         lw.other_reg = v
@@ -1920,11 +2473,14 @@ def param_binding(lw, name, ty):
     raise Unparsed("parameter `%s: %s`" % (name, ty))
 
 
-def lower_function(fnid, file, rust, owner, sites, sources):
+def lower_function(fnid, file, rust, owner, sites, sources, selector=None):
     fs = find_fns(sources[file], rust)
+    if selector is not None:
+        fs = [f for f in fs if f[0] and f[0][0][1].startswith(selector)]
     if len(fs) != 1:
         raise Unparsed("expected exactly one `fn %s` in %s, found %d" % (rust, file, len(fs)))
-    params, rtoks, btoks = fs[0]
+    params, rtoks, btoks, fn_idx = fs[0]
+    check_fn_context(sources[file], fn_idx, fnid, "`%s`" % rust)
     lw = Lower(fnid, owner, sites, sources)
     nparams, pparams, vparams = [], [], []
     for name, ty in params:
@@ -1963,7 +2519,8 @@ def pn(x):
     if t == "len": return ".len"
     if t == "mapLen": return ".mapLen"
     if t in ("otherSize", "entriesLen"): return "(.%s %d)" % (t, x[1])
-    if t in ("add", "mul", "div", "mod"): return "(.%s %s %s)" % (t, pn(x[1]), pn(x[2]))
+    if t in ("add", "mul", "div", "mod", "min"): return "(.%s %s %s)" % (t, pn(x[1]), pn(x[2]))
+    if t == "iterLo": return "(.iterLo %d)" % x[1]
     if t == "sub": return "(.sub %d %s %s)" % (x[1], pn(x[2]), pn(x[3]))
     if t in ("left", "right", "level"): return "(.%s %s)" % (t, pn(x[1]))
     if t in ("parent", "heapGetU", "qpGetU"): return "(.%s %d %s)" % (t, x[1], pn(x[2]))
@@ -1993,6 +2550,8 @@ def pb(x):
     if t in ("ltP", "gtP"): return "(.%s %s %s)" % (t, pp(x[1]), pp(x[2]))
     if t == "and": return "(.and %s %s)" % (pb(x[1]), pb(x[2]))
     if t == "not": return "(.not %s)" % pb(x[1])
+    if t == "mapInsertIsNone": return "(.mapInsertIsNone %d %s)" % (x[1], pp(x[2]))
+    if t == "betterToRebuild": return "(.betterToRebuild %s %s)" % (pn(x[1]), pn(x[2]))
     if t in ("prioMapOrGt", "prioMapOrLt"): return "(.%s %d %s)" % (t, x[1], pp(x[2]))
     if t == "containsKey": return "(.containsKey %d)" % x[1]
     if t == "predAt": return "(.predAt %d %d)" % (x[1], x[2])
@@ -2031,8 +2590,17 @@ def pstmt(s, ind):
     if t in ("firstMinBy", "lastMaxBy"): return pad + "(.%s %d %d %d %s)" % (t, s[1], s[2], s[3], pns(s[4]))
     if t == "lastMaxByPos": return pad + "(.lastMaxByPos %d %d %s)" % (s[1], s[2], pns(s[3]))
     if t == "retSomeN": return pad + "(.retSomeN %s)" % pn(s[1])
-    if t in ("heapClear", "qpClear", "mapClear", "retMapDrain", "retNonePN", "sizeInc", "retNoneP", "retNoneSlot"):
+    if t in ("heapClear", "qpClear", "mapClear", "retMapDrain", "retNonePN", "sizeInc", "retNoneP", "retNoneSlot",
+             "storeNew"):
         return pad + "." + t
+    if t in ("storeNewCap", "reserve"): return pad + "(.%s %s)" % (t, pn(s[1]))
+    if t == "fullMut2": return pad + "(.fullMut2 %d %d %d)" % (s[1], s[2], s[3])
+    if t == "slotSetItem": return pad + "(.slotSetItem %s %d)" % (pn(s[1]), s[2])
+    if t == "slotSetPrio": return pad + "(.slotSetPrio %s %s)" % (pn(s[1]), pp(s[2]))
+    if t == "ifSeqHint":
+        return pad + "(.ifSeqHint %d %d\n%s\n%s)" % (s[1], s[2], pstmts(s[3], ind + 2), pstmts(s[4], ind + 2))
+    if t == "adaptPred": return pad + "(.adaptPred %d %d)" % (s[1], s[2])
+    if t == "appendOther": return pad + "(.appendOther %d)" % s[1]
     if t == "callX":
         return pad + "(.callX %d .%s %s %s %s)" % (s[1], s[2], pns(s[3]), pps(s[4]), json.dumps(s[5]))
     if t in ("retMapGetIndex", "retMapGetIndexMut2"): return pad + "(.%s %s)" % (t, pn(s[1]))
@@ -2088,8 +2656,9 @@ def emit(results, unparsed):
     for fnid in ALL_FNIDS:
         if fnid in results:
             r = results[fnid]
-            names = ", ".join("%d=%s%s" % (i, nm, {"N": "", "P": ":P", "K": ":key", "V": ":value"}.get(k, ":" + k)) for i, (nm, k) in enumerate(r["vars"]))
-            L.append("/-! `%s`: registers %s -/" % (fnid, names or "(none)"))
+            # (the names of the Rust locals are kept out of the generated file: renaming a local must not change it;
+            #  they are listed in the translator's JSON report under "registers")
+            L.append("/-! `%s`: %d registers -/" % (fnid, len(r["vars"])))
             for name, c, body in r["loops"]:
                 L.append("def %s_cond : BExpr :=\n  %s" % (name, pb(c)))
                 L.append("")
@@ -2134,6 +2703,21 @@ def emit(results, unparsed):
     return "\n".join(L) + "\n"
 
 
+def arith_check():
+    try:
+        import importlib.util
+        spec = importlib.util.spec_from_file_location("gen_arith", os.path.join(HERE, "gen_arith.py"))
+        ga = importlib.util.module_from_spec(spec)
+        spec.loader.exec_module(ga)
+        rep, _ = ga.analyse()
+        out = list(rep.get("unparsed", []))
+        if not rep.get("copies_agree", True):
+            out.append({"fn": "*", "why": "the copies in the two queue modules differ"})
+        return out
+    except Exception as ex:
+        return [{"fn": "*", "why": "gen_arith.py could not be run: %r" % (ex,)}]
+
+
 def main():
     out = DEFAULT_OUT
     argv = sys.argv[1:]
@@ -2153,18 +2737,28 @@ def main():
             src_err[f] = str(ex)
             sources[f] = []
     results, unparsed = {}, {}
-    for fnid, file, rust, owner, sites in FUNCS:
+    global_problems = [] if src_err else global_checks(sources)
+    report["global_problems"] = global_problems
+    for entry in FUNCS:
+        fnid, file, rust, owner, sites = entry[:5]
+        selector = entry[5] if len(entry) > 5 else None
         try:
             if file in src_err:
                 raise Unparsed("cannot read/tokenize %s: %s" % (file, src_err[file]))
-            results[fnid] = lower_function(fnid, file, rust, owner, sites, sources)
+            if global_problems:
+                raise Unparsed("the crate does not have the expected shape: " + "; ".join(global_problems))
+            results[fnid] = lower_function(fnid, file, rust, owner, sites, sources, selector)
             report["translated"].append(fnid)
+            report.setdefault("registers", {})[fnid] = ["%d=%s:%s" % (i, nm, k) for i, (nm, k) in enumerate(results[fnid]["vars"])]
         except Unparsed as ex:
             unparsed[fnid] = str(ex)
             report["unparsed"].append({"fn": fnid, "rust": "%s::%s" % (file, rust), "why": str(ex)})
         except Exception as ex:                     # a bug of the translator must not look like a translation
             unparsed[fnid] = "internal error: %r" % (ex,)
             report["unparsed"].append({"fn": fnid, "rust": "%s::%s" % (file, rust), "why": "internal error: %r" % (ex,)})
+    # the arithmetic helpers (`left right parent level log2_fast better_to_rebuild`) are translated by gen_arith.py:
+    # report what it refuses, so that the caller can mark the tie stale
+    report["arith_unparsed"] = arith_check()
     new = emit(results, unparsed)
     old = open(out).read() if os.path.exists(out) else None
     report["changed"] = (old != new)
